@@ -259,12 +259,24 @@ func c01Check(cs c01Case) (ds []disc) {
 		}
 		metaSent = nil // the statement restricts metadata to PUT
 	case "api":
-		mm := map[string]string{}
+		var mm map[string]string // nil without metadata: backend.go says the map may be nil
 		for _, kv := range cs.Meta {
+			if mm == nil {
+				mm = map[string]string{}
+			}
 			mm[httpCanon(kv[0])] = kv[1]
 		}
-		if _, err := st.Backend.PutObject("bk0", key, mm, bytes.NewReader(body), int64(len(body))); err != nil {
-			fail("api-put", "Backend.PutObject: %v", err)
+		err := func() (err error) {
+			defer func() {
+				if p := recover(); p != nil {
+					err = fmt.Errorf("panic: %v", p)
+				}
+			}()
+			_, err = st.Backend.PutObject("bk0", key, mm, bytes.NewReader(body), int64(len(body)))
+			return err
+		}()
+		if err != nil {
+			fail("api-put", "Backend.PutObject(meta=%v): %v", mm, err)
 			return
 		}
 	default:
